@@ -166,6 +166,26 @@ def targeted_histories(rng):
     return out
 
 
+def atom_macro_histories(rng):
+    """always run: a macro whose expansion is not a list (a symbol), called at top level; definitions made afterwards are
+    global (a function defined before sees them) and the interpreter is at top level at the end"""
+    out = []
+    for name, sym in (('getgx', 'gx'), ('cur-scope', 'CS')):
+        n = rng.randrange(2, 5)
+        text, info = gen.simple_trace(rng, n=n, scopes=TREE)
+        cmds = [['file', 't.vcd', text], ['load', 't.vcd', 'DEFAULT']]
+        want = []
+        for t, w in (('(define gx 41)', None), (f"(defmacro {name} [] '{sym})", None), ('(defun rd [] after1)', None),
+                     (f'({name})', 'ok I41' if sym == 'gx' else 'ok S'), ('(define after1 7)', None), ('(rd)', 'ok I7'),
+                     (f'(list ({name}) ({name}))', None), ('(define after2 8)', None), ('((fn [] (+ after1 after2)))', 'ok I15'),
+                     ("(list (defined? 'after1) (defined? 'after2))", 'ok ( B1 B1 )')):
+            cmds.append(['evalstr', '111', t])
+            if w is not None:
+                want.append((len(cmds) - 1, w))
+        out.append({'id': 0, 'kind': 'expect', 'cmds': cmds, 'want': want, 'what': f'a top-level call of the macro {name}, whose expansion is the symbol {sym}'})
+    return out
+
+
 def gen_run(rng, cid):
     """a history that leaves definitions, macros, aliases, scope, group and positions behind, then Wal.run"""
     n = rng.randrange(2, 7)
@@ -221,6 +241,15 @@ def oracle(case, impl):
         f = lib.final_fields(impl.get('final', ''))
         if impl.get('final', '').startswith('END') and (f.get('stack') != '0' or f.get('cur') != 'g'):
             return f'saved positions pending / not at top level after {[c[2] for c in case["cmds"][2::2]][:3]}: stack={f.get("stack")} cur={f.get("cur")}'
+    elif case['kind'] == 'expect':
+        for pos, want in case['want']:
+            if len(res) <= pos:
+                return f'session stopped at {res[-1:]} ({case["what"]})'
+            if lib.canon(res[pos]) != lib.canon(want):
+                return f'{case["what"]}: {case["cmds"][pos][2]} gives {res[pos][:200]} expected {want}'
+        f = lib.final_fields(impl.get('final', ''))
+        if impl.get('final', '').startswith('END') and (f.get('stack') != '0' or f.get('cur') != 'g'):
+            return f'not at top level after {case["what"]}: stack={f.get("stack")} cur={f.get("cur")}'
     elif case['kind'] == 'kwargs':
         for pos, want in case['want']:
             if len(res) <= pos:
@@ -236,7 +265,7 @@ def run(tier, seed, replay=None):
     rep.proof = lib.compile_props(PID)
     rng = lib.rng_for(seed, PID)
     n = 100 if tier == 'quick' else 12000
-    cases = [gen_history(rng, c) for c in range(n)] + targeted_histories(rng)
+    cases = [gen_history(rng, c) for c in range(n)] + targeted_histories(rng) + atom_macro_histories(rng)
     pairs = []
     for c in range(n // 2):
         a, b = gen_run(rng, len(cases))
